@@ -24,7 +24,7 @@ func GenerateScalarIntersectSetRule(containsSome profile.ScalarSetRule, iriExpan
 		"    mapped := as_string(original)\n}\n" // cast value to string for matching with argument value
 	rego = append(rego, fmt.Sprintf(rego_convert_to_string_set, actualValuesVariable, actualValuesVariable))
 
-	rego = append(rego, fmt.Sprintf("%s = { %s}", containsSomeVariable, regoStringList(containsSome.Argument)))
+	rego = append(rego, fmt.Sprintf("%s = %s", containsSomeVariable, regoStringSet(containsSome.Argument)))
 
 	// assert that the difference between containsSome and actualValues is different from all containsSome
 	if containsSome.Negated {
